@@ -93,3 +93,18 @@ claim("C02",
       "minimum sizes.",
       "Trusted: as C01 plus the reference least-fixed-point evaluator.",
       "CrossHair symbolic execution (pattern D: solver-enumerated universes, schedules, draws) + z3", "DESIGN.md 2/C02")
+claim("C04",
+      "Same bounded exploration as C01 with a recording rule database: ruledb.add and ClassDB.get_label of the searcher under test "
+      "are wrapped before its constructor runs; every insertion of every explored run is judged by independent code - the rule is "
+      "what a pack strategy produces on the class carrying the parent label, child labels are the labels of the children in order, "
+      "children are dropped only if truly empty (brute force) and possibly_empty, labels and classes are in bijection, cached "
+      "emptiness is right, the forest database gets one explicit empty rule per empty child.",
+      "Trusted: as C01; the recorder only observes (it forwards every call unchanged).",
+      "CrossHair symbolic execution (pattern D: solver-enumerated universes and schedules) + z3", "DESIGN.md 2/C04")
+claim("C14",
+      "Same bounded exploration as C01 (default flavour); every insertion of every explored run is mirrored, in order, into a RuleDB "
+      "and a RuleDBForgetStrategy linked to the same searcher, and the two are compared after every single insertion (stored rules, "
+      "verified labels, has_specification, membership of the inserted key and perturbations); at the end a membership grid and "
+      "re-application of every stored strategy of a non-empty class.",
+      "Trusted: as C01; mirrors share the searcher's class database (their only side effect is a repeated set_stop_yielding).",
+      "CrossHair symbolic execution (pattern D: solver-enumerated universes and schedules) + z3", "DESIGN.md 2/C14")
